@@ -387,6 +387,8 @@ class Ctx:
         'qus': ('GenQ', ['t_upsample']),
         'k': ('GenK', ['t_com', 't_refine', 't_unravel', 't_evaluate']),
         'kcalls': ('GenK', ['t_calls_fast', 't_calls_full']),
+        'kelev': ('GenK', ['t_elevation']),
+        'klog': ('GenK', ['t_logscale']),
     }
 
     def check_generated(self, topics):
